@@ -35,8 +35,21 @@ def check_l1(ctx) -> None:
               'lines are not processed in file order')
     content_defs = [st for st in ast.walk(f.node) if isinstance(st, ast.Assign) and norm(st.targets[0]) == 'content'
                     and not isinstance(st.value, ast.List)]
-    ctx.check(len(content_defs) == 1 and norm(content_defs[0].value) == 'f.readlines()', 'L1', 'read_input_file/content=readlines',
-              f'{rel}:{content_defs[0].lineno if content_defs else loop.lineno}', 'content is not the list of all lines of the file')
+    ctx.require(len(content_defs) == 1, 'read_input_file: `content` is not assigned exactly once from the file (idiom changed)')
+    cv = norm(content_defs[0].value)
+    ALL_LINES = ('f.readlines()', 'list(f)', 'f.read().splitlines(keepends=True)', 'f.read().splitlines(True)', '[l for l in f]',
+                 'f.read().splitlines()', "f.read().split('\\n')")          # the last two drop the terminators, which the parser strips anyway
+    partial = any(isinstance(n, ast.Subscript) or (isinstance(n, (ast.ListComp, ast.GeneratorExp)) and any(g.ifs for g in n.generators))
+                  or (isinstance(n, ast.Call) and isinstance(n.func, ast.Attribute) and n.func.attr in ('readline', 'islice', 'head'))
+                  or (isinstance(n, ast.Call) and dotted_name(n.func) in ('filter', 'itertools.islice', 'set', 'sorted', 'reversed'))
+                  for n in ast.walk(content_defs[0].value))
+    if cv in ALL_LINES:
+        ctx.ok('L1', 'read_input_file/content=readlines', f'{rel}:{content_defs[0].lineno}', f'content = {cv}')
+    elif partial:
+        ctx.bad('L1', 'read_input_file/content=readlines', f'{rel}:{content_defs[0].lineno}',
+                f'content is `{cv[:80]}`: not the list of all lines of the file in file order (a slice, filter, reorder or single-line read)')
+    else:
+        raise AnalysisError(f'read_input_file: `content = {cv[:80]}` is not one of the known whole-file idioms {ALL_LINES[:4]} (cannot decide)')
     tv = norm(loop.target)
     # line = raw.strip()
     line_defs = [st for st in loop.body if isinstance(st, ast.Assign) and norm(st.targets[0]) == 'line']
